@@ -145,6 +145,12 @@ def lock_stages(q):
              'invariants': ['RaceFree'], 'expect': 'RaceFree'},
             {'kind': 'mc_neg', 'name': 'lock-recursive-read', 'module': 'MC_Lock', 'subst': {'Writers': 'W2', 'Readers': 'R2'}, 'consts': dict(c, Discipline='"recursiveRead"'),
              'invariants': ['NoDeadlock'], 'expect': 'NoDeadlock'},
+            # liveness under weak fairness of every goroutine: all operations complete, a waiting writer gets the lock (no starvation);
+            # the recursive read lock must break it (vacuity guard)
+            {'kind': 'mc', 'name': 'lock-live', 'module': 'MC_Lock', 'spec': 'FairSpec', 'subst': {'Writers': 'W2', 'Readers': 'R2'}, 'consts': c,
+             'properties': ['Termination', 'WriterProgress'], 'workers': 8},
+            {'kind': 'mc_neg', 'name': 'lock-live-recursive-read', 'module': 'MC_Lock', 'spec': 'FairSpec', 'subst': {'Writers': 'W2', 'Readers': 'R2'},
+             'consts': dict(c, Discipline='"recursiveRead"'), 'properties': ['Termination'], 'expect': 'Termination'},
             {'kind': 'ind', 'name': 'lock-inductive', 'module': 'LockInd', 'safety': 'Safety', 'unbounded_in': 'number of operations per goroutine, generations of the route',
              'consts': {'Writers': '{"w1", "w2"}', 'Readers': '{"r1", "r2", "r3"}', 'Discipline': '"intended"', 'NOps': 2},
              'neg_consts': {'Writers': '{"w1", "w2"}', 'Readers': '{"r1", "r2", "r3"}', 'Discipline': '"asBuilt"', 'NOps': 2}}]
